@@ -256,6 +256,19 @@ func genOne(r *hx.Rng, tier string) string {
 		if len(corrupt) > 1 {
 			dirs[[2]int{corrupt[1], 10}] = randomVariant(r, n, t, 10)
 		}
+	case 7: // corrupt-to-corrupt misbehaviour: only a corrupt member can (truthfully or not) accuse
+		if len(corrupt) > 1 {
+			a, b := corrupt[0], corrupt[1]
+			dirs[[2]int{b, 3}] = hx.Pick(r, []string{fmt.Sprintf("bad%d", a), fmt.Sprintf("garb%d", a)})
+			dirs[[2]int{a, 3}] = fmt.Sprintf("bad%d", r.Range(1, n))
+			if r.Bool() {
+				dirs[[2]int{a, 4}] = fmt.Sprintf("drop%d", b)
+				dirs[[2]int{a, 7}] = "pt" + dots(subset(r, n, t))
+				dirs[[2]int{a, 8}] = fmt.Sprintf("acc%d", b)
+			}
+		} else {
+			dirs[[2]int{corrupt[0], 3}] = fmt.Sprintf("bad%d", r.Range(1, n))
+		}
 	case 5, 6: // a member drops out of (or never was in) QUAL-with-valid-points + key reveal games
 		a := corrupt[0]
 		switch r.Intn(6) {
